@@ -81,7 +81,38 @@ def value_keys(fn, n):
 
 
 def pass2_blocks(fn):
-    """Blocks reachable from the entry when asm_context->pass == 2 (pass tests followed on their pass-2 edge only)."""
+    """Blocks reachable from the entry when asm_context->pass == 2 (pass tests followed on their pass-2 edge only).
+    Locals that are stored only in blocks pass 2 cannot reach keep their constant initialiser in pass 2, so tests of
+    such a local against a constant are resolved too (`int opcode = -1; if (pass == 1) opcode = n; ... if (opcode != -1)`);
+    iterated to a fixpoint."""
+    fixed = {}
+    for _ in range(4):
+        seen = _pass2_blocks(fn, fixed)
+        # locals with a constant initialiser whose other stores are all outside `seen`
+        init = {}
+        stores = {}
+        for n in fn.nodes.values():
+            if n['k'] == 'DeclStmt':
+                for d, i in zip([x for x in n.get('decls', ()) if x.get('init')], kids(n)):
+                    if const(i) is not None:
+                        init[d['d']] = const(i)
+            tgt = None
+            if n['k'] in ('BinaryOperator', 'CompoundAssignOperator') and (n.get('op') == '=' or (n.get('op', '').endswith('=') and n['op'] not in ('==', '!=', '<=', '>='))):
+                tgt = strip(kids(n)[0])
+            elif n['k'] == 'UnaryOperator' and n.get('op') in ('++', '--', '&'):
+                tgt = strip(kids(n)[0])
+            if tgt is not None and tgt['k'] == 'DeclRefExpr':
+                w = fn.where.get(n['i'])
+                stores.setdefault(tgt.get('d'), []).append(w[0] if w else None)
+        new = {d: v for d, v in init.items() if all(b is not None and b not in seen for b in stores.get(d, []))
+               and stores.get(d)}
+        if new == fixed:
+            return seen
+        fixed = new
+    return seen
+
+
+def _pass2_blocks(fn, fixed):
     seen = set()
     st = [fn.entry]
     while st:
@@ -104,6 +135,12 @@ def pass2_blocks(fn):
                 nxt = [sc[0]]
             else:
                 nxt = sc
+                if fixed and c['k'] == 'BinaryOperator' and c.get('op') in ('==', '!=', '<', '>', '<=', '>='):
+                    l, r = strip(kids(c)[0], casts=True), kids(c)[1]
+                    if l['k'] == 'DeclRefExpr' and l.get('d') in fixed and const(r) is not None:
+                        a_, b_ = fixed[l['d']], const(r)
+                        t_ = {'==': a_ == b_, '!=': a_ != b_, '<': a_ < b_, '>': a_ > b_, '<=': a_ <= b_, '>=': a_ >= b_}[c['op']]
+                        nxt = [sc[0]] if t_ else [sc[1]]
         else:
             nxt = sc
         st.extend(x for x in nxt if x is not None)
@@ -138,6 +175,14 @@ class FnInfo:
                 for d, i in zip([x for x in n.get('decls', ()) if x.get('init')], kids(n)):
                     if w:
                         self.assigns.append(('V:%s' % d['d'], i, n, w[0]))
+            elif n['k'] in ('CallExpr', 'CXXMemberCallExpr') and w:
+                # `f(&x)`: the callee may store x
+                for a in call_args(n):
+                    a_ = strip(a, casts=True)
+                    if a_['k'] == 'UnaryOperator' and a_.get('op') == '&':
+                        kk = key_of(fn, kids(a_)[0])
+                        if kk:
+                            self.assigns.append((kk, None, a_, w[0]))
 
     def solve(self):
         fn = self.fn
@@ -471,10 +516,21 @@ class FlowTaint:
     Locals are updated strongly (an assignment from an untainted expression clears them), fields and array elements
     weakly."""
 
-    def __init__(self, fn, fi):
-        self.fn, self.fi = fn, fi
+    def __init__(self, fn, fi, tags=None):
+        self.fn, self.fi, self.tags = fn, fi, tags
         self.inn = {}
+        self._tagmemo = {}
         self._solve()
+
+    def _tag_clean(self, x):
+        """x is a `.value` read of an operand whose type tag, tested in the enclosing conditions, is only ever stored
+        together with values that do not come from eval_expression (register numbers, condition codes)."""
+        if self.tags is None or x['k'] != 'MemberExpr' or x.get('n') != 'value':
+            return False
+        if x['i'] not in self._tagmemo:
+            tt = _tag_tests(self.fn, x, x)
+            self._tagmemo[x['i']] = bool(tt) and all(t in self.tags and not self.tags[t] for t in tt)
+        return self._tagmemo[x['i']]
 
     def _expr_tainted(self, e, st):
         for x in walk(e):
@@ -482,7 +538,21 @@ class FlowTaint:
                 s_ = self.fi.summ.get(ckey(x))
                 if s_ and s_.get('ret'):
                     return True
-        return bool(value_keys(self.fn, e) & st)
+        if self.tags is None:
+            return bool(value_keys(self.fn, e) & st)
+        skip = set()
+        for x in walk(e):
+            if x['k'] in ('CallExpr', 'CXXMemberCallExpr') and callee(x) in EVAL:
+                for y in walk(x):
+                    skip.add(y['i'])
+        for x in walk(e):
+            if x['i'] in skip or x['k'] not in ('DeclRefExpr', 'MemberExpr'):
+                continue
+            kk = key_of(self.fn, x)
+            if kk and kk in st and not self._tag_clean(x):
+                # a MemberExpr's base (operands) is visited too: only count the outermost storage key once
+                return True
+        return False
 
     def transfer(self, n, st):
         """Effect of CFG element n on the tainted-key set (in place)."""
@@ -737,9 +807,10 @@ def _site_id(fn, c):
 WEIGHT = {'add_bin8': 1, 'add_bin16': 2, 'add_bin32': 4, 'add_bin64': 8, 'AsmContext::memory_write_inc': 1}
 
 
-def _memo_unknown_edge(fn, fi, cn):
-    """For a branch whose own test is a memo test: which successor index is impossible when pass 1 did NOT know the
-    value (memo byte non-zero)?  0 = the true edge is impossible, 1 = the false edge, None = cannot tell."""
+def _memo_unknown_edge(fn, fi, cn, K=1):
+    """For a branch whose own test is a memo test (or a test of a memo-derived flag): which successor index is
+    impossible when the memo byte is K (non-zero: pass 1 did NOT know the value)?  0 = the true edge is impossible,
+    1 = the false edge, None = cannot tell."""
     own = strip(cn)
     while own['k'] == 'BinaryOperator' and own.get('op') in ('&&', '||'):
         own = strip(kids(own)[1])
@@ -747,20 +818,123 @@ def _memo_unknown_edge(fn, fi, cn):
     while own['k'] == 'UnaryOperator' and own.get('op') == '!':
         neg = not neg
         own = strip(kids(own)[0])
+    flags = getattr(fi, 'memo_flags', {})
+    memo0 = getattr(fi, 'memo0', fi.memo)
+
+    def flag_value(x):
+        """Value of a memo-derived flag when the memo byte is K: the constant it is given under a memo test that
+        holds for K, else 0 (its initial value) -- None when x is not such a flag."""
+        xs = strip(x, casts=True)
+        if xs['k'] not in ('DeclRefExpr', 'MemberExpr', 'ArraySubscriptExpr'):
+            return None
+        xk = key_of(fn, xs)
+        if xk not in flags:
+            return None
+        vals = {v for v, kf in flags[xk] if _holds(kf, K)}
+        if len(vals) > 1:
+            return None
+        return vals.pop() if vals else 0
     res = None
+    truth = None
     if own['k'] == 'BinaryOperator' and own.get('op') in ('==', '!='):
         l, r = kids(own)
         for x, y in ((l, r), (r, l)):
-            if const(y) == 0 and fi._is_memo_expr(x) and not (value_keys(fn, x) - fi.memo):
-                res = 0 if own['op'] == '==' else 1     # memo == 0 is false when unknown
-    elif fi._is_memo_expr(own) and not (value_keys(fn, own) - fi.memo) and own['k'] in ('DeclRefExpr', 'MemberExpr', 'ImplicitCastExpr', 'CallExpr', 'CXXMemberCallExpr'):
-        res = 1                                          # `if (force_long)` is true when unknown
-    if res is not None and neg:
-        res = 1 - res
-    return res
+            if const(y) is None:
+                continue
+            if _pure_memo(fn, fi, x):
+                truth = (K == const(y))
+            else:
+                fv = flag_value(x)
+                if fv is not None:
+                    truth = (fv == const(y))
+            if truth is not None:
+                if own['op'] == '!=':
+                    truth = not truth
+                break
+    else:
+        fv = flag_value(own)
+        if fv is not None:
+            truth = fv != 0
+        elif _pure_memo(fn, fi, own):
+            truth = K != 0
+    if truth is None:
+        return None
+    if neg:
+        truth = not truth
+    return 1 if truth else 0
 
 
-def byte_sets(fn, summ, dead, fi=None, prune_memo=False):
+def _pure_memo(fn, fi, x):
+    """x is the memo itself: a memory_read(address) call or a variable that only ever holds the memo."""
+    xs = strip(x, casts=True)
+    if xs['k'] in ('CallExpr', 'CXXMemberCallExpr'):
+        return callee(xs) in MEMO_READ
+    memo0 = getattr(fi, 'memo0', fi.memo)
+    return xs['k'] in ('DeclRefExpr', 'MemberExpr') and key_of(fn, xs) in memo0
+
+
+def _memo_cond_k(fn, fi, cn):
+    """For a memo test: the set of memo byte values for which its TRUE edge is taken, as ('eq', K), ('ne', K) or
+    ('nz',) -- None when the condition is not a plain memo test."""
+    own = strip(cn)
+    while own['k'] == 'BinaryOperator' and own.get('op') in ('&&', '||'):
+        own = strip(kids(own)[1])
+    if own['k'] == 'BinaryOperator' and own.get('op') in ('==', '!='):
+        l, r = kids(own)
+        for x, y in ((l, r), (r, l)):
+            if const(y) is not None and _pure_memo(fn, fi, x):
+                return ('eq' if own['op'] == '==' else 'ne', const(y))
+    elif _pure_memo(fn, fi, own):
+        return ('nz',)
+    return None
+
+
+def _holds(kform, K):
+    """Does a memo test of form kform take its true edge when the memo byte is K?"""
+    if kform[0] == 'eq':
+        return K == kform[1]
+    if kform[0] == 'ne':
+        return K != kform[1]
+    return K != 0
+
+
+def memo_flags(fn, fi):
+    """fi.memo_flags: {key: [(constant assigned, memo-test form)]} for keys that are set to a non-zero constant in a
+    block control-dependent on the true edge of a memo test (`memory_read(address) == K`, `!= 0`, truthiness):
+    `wide = 1`, `force_long = true`.  fi.memo_values: the memo byte values the function distinguishes."""
+    if not hasattr(fi, 'memo0'):
+        fi.memo0 = set(fi.memo)
+    dead = _error_dead(fn)
+    cd, succ = control_deps(fn, dead)
+    flags = {}
+    values = set()
+    for b, bb in fn.blocks.items():
+        cn = fn.nodes.get(bb.get('cond')) if 'cond' in bb else None
+        if cn is not None:
+            kf = _memo_cond_k(fn, fi, cn)
+            if kf and kf[0] in ('eq', 'ne') and kf[1] != 0:
+                values.add(kf[1])
+    for kk, rhs, stn, b in fi.assigns:
+        if rhs is None or stn['k'] == 'DeclStmt':
+            continue
+        v = const(rhs)
+        if v is None or v == 0:
+            continue
+        for (pc, ps_) in cd.get(b, ()):
+            bb = fn.blocks[pc]
+            cn = fn.nodes.get(bb.get('cond')) if 'cond' in bb else None
+            if cn is None or len(succ[pc]) != 2 or ps_ != succ[pc][0]:
+                continue
+            kf = _memo_cond_k(fn, fi, cn)
+            if kf:
+                flags.setdefault(kk, []).append((v, kf))
+    fi.memo_flags = flags
+    fi.memo_values = sorted(values) or [1]
+    fi.memo = set(fi.memo0) | set(flags)
+    return flags
+
+
+def byte_sets(fn, summ, dead, fi=None, prune_memo=False, K=1):
     """W[b]: the set of byte counts emitted on the non-error paths from the start of block b to the end of the function
     (None = unknown: a loop or a helper with unknown emission lies on some path).  With prune_memo, edges that are
     impossible when the pass-1 memo says "value unknown" are left out."""
@@ -803,7 +977,7 @@ def byte_sets(fn, summ, dead, fi=None, prune_memo=False):
         if prune_memo and fi is not None and len(sc) == 2 and 'cond' in fn.blocks[b]:
             cn = fn.nodes.get(fn.blocks[b]['cond'])
             if cn is not None:
-                dead_edge = _memo_unknown_edge(fn, fi, cn)
+                dead_edge = _memo_unknown_edge(fn, fi, cn, K)
                 if dead_edge is not None:
                     sc = [x for i, x in enumerate(sc) if i != dead_edge]
         return [x for x in sc if x is not None and x not in dead]
@@ -840,6 +1014,23 @@ def byte_sets(fn, summ, dead, fi=None, prune_memo=False):
     for b in fn.blocks:
         if b not in dead:
             go(b)
+    # blocks reachable from the entry under the same pruning
+    reach = set()
+    st = [fn.entry]
+    while st:
+        x = st.pop()
+        if x in reach:
+            continue
+        reach.add(x)
+        sc = [y for y in fn.blocks[x]['s']]
+        if prune_memo and fi is not None and len(sc) == 2 and 'cond' in fn.blocks[x]:
+            cn = fn.nodes.get(fn.blocks[x]['cond'])
+            if cn is not None:
+                de = _memo_unknown_edge(fn, fi, cn, K)
+                if de is not None:
+                    sc = [y for i, y in enumerate(sc) if i != de]
+        st.extend(y for y in sc if y is not None)
+    memo['reach'] = reach
     return memo
 
 
@@ -907,11 +1098,10 @@ def tag_taint(fn, ft):
     return tags
 
 
-def _tag_tests(fn, cn, valnode):
+def _tag_tests(fn, cn, valnode, base=None):
     """Type tags the same operand is tested against in the enclosing condition chain (conjuncts of the IfStmt the
     comparison belongs to and of the IfStmts it is nested in)."""
-    base = None
-    for x in walk(valnode):
+    for x in ([] if base else walk(valnode)):
         if x['k'] == 'MemberExpr' and x.get('n') == 'value':
             base = show(kids(x)[0])
     if base is None:
@@ -921,7 +1111,7 @@ def _tag_tests(fn, cn, valnode):
     seen_if = 0
     p = fn.parent.get(node['i'])
     tops = [cn]
-    while p is not None and seen_if < 4:
+    while p is not None and seen_if < 10:
         if p['k'] in ('IfStmt', 'BinaryOperator', 'ParenExpr', 'ImplicitCastExpr', 'CompoundStmt', 'SwitchStmt', 'CaseStmt'):
             if p['k'] == 'IfStmt':
                 seen_if += 1
@@ -965,6 +1155,7 @@ def candidates(prog):
             continue
         ft = FlowTaint(fn, fi)
         p2 = pass2_blocks(fn)
+        memo_flags(fn, fi)
         cond_block = {bb.get('cond'): b for b, bb in fn.blocks.items() if 'cond' in bb}
         ordn = {}
         for cn, decided, de, tk in sorted(res, key=lambda r: r[0]['i']):
@@ -992,13 +1183,306 @@ def candidates(prog):
                 continue
             text = show(own)
             ordn[text] = ordn.get(text, 0) + 1
-            # byte counts reachable on the two arms
+            # byte counts reachable on the two arms, for every memo value that means "pass 1 did not know"
             if fn.key not in wcache:
                 dead_ = _error_dead(fn)
-                wcache[fn.key] = (byte_sets(fn, summ, dead_, fi, True), dead_)
-            W, dead_ = wcache[fn.key]
-            arms = [W.get(x) if x not in dead_ else frozenset() for x in fn.blocks[w]['s'] if x is not None]
-            same = len(arms) == 2 and None not in arms and arms[0] == arms[1]
+                wcache[fn.key] = ([(K, byte_sets(fn, summ, dead_, fi, True, K)) for K in fi.memo_values], dead_)
+            Ws, dead_ = wcache[fn.key]
+            arms = None
+            same = True
+            for K, W in Ws:
+                if w not in W['reach']:
+                    continue            # the test is not reached when the memo byte is K
+                a_ = [W.get(x) if x not in dead_ else frozenset() for x in fn.blocks[w]['s'] if x is not None]
+                ok_ = len(a_) == 2 and None not in a_ and a_[0] == a_[1]
+                if not ok_:
+                    same = False
+                    if arms is None or (None not in a_):
+                        arms = a_
+            unreached = arms is None and same
+            if arms is None:
+                arms = [frozenset(), frozenset()]
             out.append({'fn': fn, 'cond': cn, 'own': own, 'text': text, 'construct': '%s#%d' % (text, ordn[text]),
-                        'decided': decided, 'emit': de, 'arms': arms, 'same_size': same})
+                        'decided': decided, 'emit': de, 'arms': arms, 'same_size': same, 'unreached': unreached})
     return out, {'functions': nfun, 'emission_controlling_branches': nrel}
+
+
+def load_table():
+    import json
+    import os
+    p = os.path.join(os.path.dirname(os.path.abspath(__file__)), 'passsize_table.json')
+    with open(p) as f:
+        return json.load(f)
+
+
+def pass_size(prog, table=None):
+    """PASS-SIZE: a pass-2 test of a symbol-derived value against a constant whose two arms emit different numbers of
+    bytes when pass 1 did not know the value (memo tests resolved to "unknown") makes the instruction's length depend
+    on a value pass 1 could not see.  Decided only where both arms have a finite set of byte counts; tests whose arms
+    run into table-search loops or helpers with unknown emission are listed as observations (not decided), with the
+    classification recorded during triage where there is one."""
+    table = table if table is not None else load_table()
+    tri = {(e['file'], e['function'], e['construct']): e for e in table.get('triaged', [])}
+    cands, stats = candidates(prog)
+    obs = []
+    for x in cands:
+        fn, own = x['fn'], x['own']
+        arms = x['arms']
+        finite = len(arms) == 2 and None not in arms
+        key = (fn.file, fn.q, x['construct'])
+        t = tri.get(key)
+        if t and t['class'] == 'inconsistent':
+            obs.append(Ob('PASS-SIZE', fn.file, own['l'], fn.q, x['construct'], VIOLATED,
+                          '`%s`: the instruction length depends on a value pass 1 may not know and no memo carries the pass-1 '
+                          'choice (replayed: %s; demo %s)' % (x['text'], t['reason'][:200], t.get('demo', ''))))
+        elif x.get('unreached'):
+            obs.append(Ob('PASS-SIZE', fn.file, own['l'], fn.q, x['construct'], DISCHARGED, '',
+                          'the test is not reached when the memo says that pass 1 did not know the value', True))
+        elif finite and arms[0] == arms[1] and not x['decided']:
+            obs.append(Ob('PASS-SIZE', fn.file, own['l'], fn.q, x['construct'], DISCHARGED, '',
+                          'both arms emit %s bytes when the value was unknown in pass 1' % sorted(arms[0]), True))
+        elif finite and arms[0] != arms[1]:
+            if t and t['class'] in ('consistent', 'not-size'):
+                obs.append(Ob('PASS-SIZE', fn.file, own['l'], fn.q, x['construct'], OBSERVATION,
+                              'arms emit %s / %s bytes; triaged %s: %s' % (sorted(arms[0]), sorted(arms[1]), t['class'], t['reason'])))
+            else:
+                obs.append(Ob('PASS-SIZE', fn.file, own['l'], fn.q, x['construct'], VIOLATED,
+                              '`%s` is decided in pass 2 on a value that pass 1 may not know (forward reference), without the '
+                              'pass-1 memo, and its arms emit %s and %s bytes: the instruction changes length between the '
+                              'passes and every later label moves' % (x['text'], sorted(arms[0]), sorted(arms[1]))))
+        else:
+            why = ('triaged %s: %s' % (t['class'], t['reason'])) if t else 'not triaged'
+            obs.append(Ob('PASS-SIZE', fn.file, own['l'], fn.q, x['construct'], OBSERVATION,
+                          'byte counts of the arms are not finite sets here (table search / helper emission); not decided; ' + why))
+    return RuleResult('PASS-SIZE', obs, 0, stats)
+
+
+def memo_survives(prog, cg):
+    """MEMO-SURVIVES: a CPU whose assembler writes the pass-1 memo byte at the instruction's own address has
+    pass_1_write_disable = 1 in cpu_list[]: otherwise add_bin() stores the pass-1 encoding over the memo before pass 2
+    can read it, and pass 2 decides sizes as if every operand had been known."""
+    from nk import tables
+    rows, fields, g = tables.rows(prog, 'cpu_list')
+    writers = {}
+    for fn, c, kind, K in memo_sites(prog):
+        if kind == 'w':
+            writers.setdefault(fn.key, []).append(c)
+    obs = []
+    n = 0
+    for r in rows:
+        nm = tables.strval(r.get('name'))
+        if not nm:
+            continue
+        pf = tables.funcref(r.get('parse_instruction'))
+        if not pf:
+            continue
+        n += 1
+        reach = cg.reachable([pf])
+        ws = [(k, writers[k]) for k in reach if k in writers]
+        if not ws:
+            continue
+        flag = r['pass_1_write_disable'].get('ev')
+        k0, cs = ws[0]
+        wfn = prog.by_key[k0]
+        ok = flag == 1
+        obs.append(Ob('MEMO-SURVIVES', g['file'], r['name']['l'], 'cpu_list', 'cpu:%s' % nm, DISCHARGED if ok else VIOLATED,
+                      '' if ok else '%s writes the pass-1 memo (%s:%d) but cpu_list["%s"].pass_1_write_disable is 0: add_bin() '
+                      'overwrites the memo in pass 1 and pass 2 never sees it' % (wfn.q, wfn.file, cs[0]['l'], nm),
+                      'memo written in %s; pass-1 emission disabled' % wfn.q))
+    if n < 50:
+        raise AnalysisBroken('MEMO-SURVIVES: only %d cpu_list rows' % n)
+    return RuleResult('MEMO-SURVIVES', obs, 15, {'cpus': n})
+
+
+def pass_flag(prog):
+    """PASS-FLAG: a variable or operand field that is stored only while asm_context->pass == 1 (every store in the
+    assembler's file lies in a block that pass 2 cannot reach) but tested in pass 2 by a branch that controls what is
+    emitted makes pass 2 decide with the initial value where pass 1 decided with the stored one: the size decision
+    depends on the pass itself (6809's use_long before the fix).  Discharged when pass 2 stores it too (from the memo)."""
+    files = {f.file for f in prog.fns.values() if f.file.startswith('asm/')}
+    summ = summaries(prog, files)
+    emit_summaries(prog, files, summ)
+    obs = []
+    nfiles = 0
+    byfile = {}
+    for fn in prog.fns.values():
+        if fn.file in files and fn.blocks:
+            byfile.setdefault(fn.file, []).append(fn)
+    for f, fns in sorted(byfile.items()):
+        info = {}
+        haspass = False
+        for fn in fns:
+            p2 = pass2_blocks(fn)
+            if len(p2) != len(fn.blocks):
+                haspass = True
+            fi = FnInfo(prog, fn, summ)
+            info[fn.key] = (fn, p2, fi)
+        if not haspass:
+            continue
+        nfiles += 1
+        stores = {}
+        for fn, p2, fi in info.values():
+            for kk, rhs, stn, b in fi.assigns:
+                if stn['k'] == 'DeclStmt':
+                    continue
+                key = kk if kk.startswith('F:') else (fn.key, kk)
+                stores.setdefault(key, []).append((fn, b in p2, stn, rhs))
+            # memset / address-taken stores make a field "stored in both passes": ignore such keys conservatively
+        cand = {k: v for k, v in stores.items() if all(not in2 for _, in2, _, _ in v)
+                and any(r is not None and const(r) not in (None, 0) for _, _, _, r in v)}
+        for key, v in sorted(cand.items(), key=lambda kv: str(kv[0])):
+            fn0, _, stn0, _ = v[0]
+            name = show(strip(kids(stn0)[0]))
+            kk = key if isinstance(key, str) else key[1]
+            readers = []
+            for fn, p2, fi in info.values():
+                if not isinstance(key, str) and fn.key != key[0]:
+                    continue
+                dead = _error_dead(fn)
+                cd, succ = control_deps(fn, dead)
+                emit_blocks = set()
+                for c in fn.calls():
+                    w = fn.where.get(c['i'])
+                    if w and w[0] not in dead and (callee(c) in EMIT or summ.get(ckey(c), {}).get('emits')):
+                        emit_blocks.add(w[0])
+                helper = not fn.name.startswith('parse_instruction_')
+                if helper:
+                    for n in fn.nodes.values():
+                        if n['k'] == 'ReturnStmt':
+                            w = fn.where.get(n['i'])
+                            if w and w[0] not in dead:
+                                emit_blocks.add(w[0])
+                ctrl = set()
+                st = list(emit_blocks)
+                seen = set()
+                while st:
+                    b = st.pop()
+                    if b in seen:
+                        continue
+                    seen.add(b)
+                    for (pc, ps_) in cd.get(b, ()):
+                        ctrl.add(pc)
+                        st.append(pc)
+                for pc in sorted(ctrl):
+                    if pc not in p2:
+                        continue
+                    bb = fn.blocks[pc]
+                    cn = fn.nodes.get(bb.get('cond')) if 'cond' in bb else None
+                    if cn is None:
+                        continue
+                    own = strip(cn)
+                    while own['k'] == 'BinaryOperator' and own.get('op') in ('&&', '||'):
+                        own = strip(kids(own)[1])
+                    if kk in keys_read(fn, own):
+                        readers.append((fn, cn))
+            if not readers:
+                continue
+            rf, rc = readers[0]
+            obs.append(Ob('PASS-FLAG', fn0.file, stn0['l'], fn0.q, 'flag:%s' % name.split('.')[-1].split('->')[-1], VIOLATED,
+                          '`%s` is stored only in pass 1 (%s line %d) but `%s` (%s line %d) tests it in pass 2 and controls what '
+                          'is emitted: pass 2 sees its initial value, so the two passes can choose different instruction '
+                          'lengths' % (name, fn0.q, stn0['l'], show(rc)[:50], rf.q, rc['l'])))
+        for key, v in stores.items():
+            if key in cand or not any(not in2 for _, in2, _, _ in v) or not any(in2 for _, in2, _, _ in v):
+                continue
+            if not any(r is not None and const(r) not in (None, 0) for _, in2, _, r in v if not in2):
+                continue
+            fn0, _, stn0, _ = v[0]
+            name = show(strip(kids(stn0)[0]))
+            obs.append(Ob('PASS-FLAG', fn0.file, stn0['l'], fn0.q, 'flag:%s' % name.split('.')[-1].split('->')[-1], DISCHARGED, '',
+                          'stored in pass 1 and in pass 2', False))
+    return RuleResult('PASS-FLAG', obs, 0, {'files_with_pass_tests': nfiles})
+
+
+def memo_addr(prog):
+    """MEMO-ADDR: the memo byte lives at the address where the instruction starts, so it is read (and written) before
+    anything of the instruction has been emitted: add_bin*() advances asm_context->address, and a memo access that
+    follows an emission on some path addresses a different byte in pass 1 (placeholder form) than the one pass 2
+    looks at (msp430 `rpt #n, add #fwd, r5` before the fix)."""
+    files = {f.file for f in prog.fns.values() if f.file.startswith('asm/')}
+    summ = summaries(prog, files)
+    emit_summaries(prog, files, summ)
+    # functions that access the memo (directly or through callees in asm/)
+    acc = {}
+    for fn, c, kind, K in memo_sites(prog):
+        acc.setdefault(fn.key, []).append(c)
+    changed = True
+    trans = set(acc)
+    while changed:
+        changed = False
+        for fn in prog.fns.values():
+            if fn.file in files and fn.blocks and fn.key not in trans:
+                if any(ckey(c) in trans for c in fn.calls()):
+                    trans.add(fn.key)
+                    changed = True
+    obs = []
+    for fn in sorted(prog.fns.values(), key=lambda f: (f.file, f.line)):
+        if fn.file not in files or not fn.blocks or fn.key not in trans:
+            continue
+        # positions: (block, index) of emissions and memo accesses
+        emits, memos = [], []
+        for c in fn.calls():
+            w = fn.where.get(c['i'])
+            if w is None:
+                continue
+            q = callee(c)
+            if q in ('AsmContext::memory_write', 'AsmContext::memory_read') and call_args(c) and _is_addr(fn, call_args(c)[0]):
+                memos.append((w, c))
+            elif ckey(c) in trans and ckey(c) != fn.key:
+                memos.append((w, c))
+            if q in EMIT or (summ.get(ckey(c), {}).get('emits') and ckey(c) not in trans):
+                emits.append((w, c))
+        if not memos:
+            continue
+        # only emissions that can follow the parsing of an operand belong to the instruction proper (alignment padding
+        # emitted before anything is parsed moves the instruction start in both passes alike)
+        starts = [w for (w, c) in memos]
+        for c in fn.calls():
+            if callee(c) in EVAL or summ.get(ckey(c), {}).get('out') or summ.get(ckey(c), {}).get('ret'):
+                w = fn.where.get(c['i'])
+                if w:
+                    starts.append(w)
+        after = set()          # blocks reachable from a start (from their beginning)
+        first_in_block = {}
+        for (b, i) in starts:
+            first_in_block[b] = min(i, first_in_block.get(b, 1 << 30))
+        st = []
+        for b in first_in_block:
+            st.extend(fn.succs(b))
+        while st:
+            b = st.pop()
+            if b in after:
+                continue
+            after.add(b)
+            st.extend(fn.succs(b))
+        emits = [((eb, ei), ec) for (eb, ei), ec in emits if eb in after or (eb in first_in_block and ei > first_in_block[eb])]
+        bad = None
+        for (eb, ei), ec in emits:
+            # forward reachability from just after the emission
+            seen = set()
+            st = [(eb, ei + 1)]
+            while st and bad is None:
+                b, i0 = st.pop()
+                if (b, i0 == 0) in seen and i0 == 0:
+                    continue
+                if i0 == 0:
+                    seen.add((b, True))
+                for (mb, mi), mc in memos:
+                    if mb == b and mi >= i0:
+                        bad = (ec, mc)
+                        break
+                if bad is None:
+                    for s_ in fn.succs(b):
+                        st.append((s_, 0))
+            if bad:
+                break
+        if bad:
+            ec, mc = bad
+            obs.append(Ob('MEMO-ADDR', fn.file, mc['l'], fn.q, 'memo-after-emit', VIOLATED,
+                          'the memo access `%s` (line %d) can follow the emission `%s` (line %d): asm_context->address has moved, so '
+                          'the byte read is not the one written for this instruction in pass 1' % (
+                              show(mc)[:50], mc['l'], show(ec)[:40], ec['l'])))
+        else:
+            obs.append(Ob('MEMO-ADDR', fn.file, fn.line, fn.q, 'memo-after-emit', DISCHARGED, '',
+                          '%d memo accesses, none reachable from any of the %d emission sites' % (len(memos), len(emits)), len(emits) > 0))
+    return RuleResult('MEMO-ADDR', obs, 10, {})
